@@ -450,7 +450,21 @@ class Gen:
     # ---------------------------------------------------------------- hazard templates
     def hazard(self):
         r = self.r
-        k = r.randrange(10)
+        k = r.randrange(12)
+        if k == 10:
+            # the try body runs in the enclosing scope: what it declares is visible afterwards
+            t, e = self.name("t"), self.name("e")
+            self.declare(t, INT)
+            body = ("seq", [("decl", t, self.expr(INT, 2)), ("if", self.expr(INT, 2), ("throw", ("int", 1)), None), ("int", 0)])
+            return [("try", body, ("name", e), ("int", 5)), ("print", ("bin", "+", ("var", t), ("int", 1)))]
+        if k == 11:
+            # key and value of `yield k: v` are evaluated key first, once per iteration
+            x = self.name("x")
+            key = ("seq", [("print", ("bin", "$", ("str", "k"), ("var", x))), ("bin", "%", ("var", x), ("int", 2))])
+            val = ("seq", [("print", ("bin", "$", ("str", "v"), ("var", x))), ("bin", "*", ("var", x), ("int", 10))])
+            loop = ("for", [("in", x, ("list", [("int", 1), ("int", 2), ("int", 3)]))], "yieldkv", val, key, None)
+            d = self.name("d")
+            return [("decl", d, loop), ("print", ("len", ("list", [("int", 0)])))]
         if k == 8:
             # a leading declaration clause lives in the loop's scope only: the name can be declared
             # again afterwards (and a second such loop in the same scope is fine)
